@@ -124,6 +124,7 @@ def deps():
                 for xi in range(3):
                     interp.append(TCp(R, nodes[ai], nodes[xi]) == ((ai, xi) in d))
         Ec = Const('E_c', REL); interp.append(Ec == rel(E))
+        total += check('DEP_AX[1:]', DEP_AX[1:], interp + [And(*[Not(TCp(rel(EE), a, b)) for EE in [E] for a in U for b in U if a is null or b is null])], {str(REL): [Ec], str(T.z): nodes})
         setsz = []
         for Vs in sets:
             sv = K(T.z, False)
